@@ -158,10 +158,17 @@ def run_bounded(prop, tier, src=None):
     known = [k for k in load_known() if k.get('status', 'open') == 'open' and k.get('bounded_check')
              and k.get('property') == prop]
     known_hits = {}
+
+    def is_known(f):
+        # a recorded finding (known_findings.json) is identified by the failing check AND the failing inputs it lists
+        # ('cases': the case records of the stand-in); another input failing the same check is a new violation
+        for k in known:
+            if re.fullmatch(k['bounded_check'], str(f.get('check'))) and f.get('case') in k.get('cases', []):
+                return k
+        return None
     for f in info.get('failures', []):
-        kf = next((k for k in known if re.fullmatch(k['bounded_check'], str(f.get('check')))), None)
+        kf = is_known(f)
         if kf is not None:
-            # a recorded finding (known_findings.json): the stand-in classifies these inputs by their cause itself
             known_hits.setdefault(kf['what'], []).append(f.get('case'))
             continue
         key = (f.get('check'), json.dumps(f.get('message'), sort_keys=True), f.get('stream'))
@@ -180,8 +187,7 @@ def run_bounded(prop, tier, src=None):
         print('KNOWN-FINDING: property=%s %s [bounded stand-in %s: %d input(s), e.g. %s]' % (
             prop, what, script, len(cases), json.dumps(cases[0])[:120]))
     info['known_findings_seen'] = [{'what': w, 'inputs': len(c)} for w, c in known_hits.items()]
-    info['failures'] = [f for f in info.get('failures', []) if not any(
-        re.fullmatch(k['bounded_check'], str(f.get('check'))) for k in known)]
+    info['failures'] = [f for f in info.get('failures', []) if is_known(f) is None]
     return info, lines, []
 
 
